@@ -106,7 +106,7 @@ fn run_g<C: Codec>(c: &Case, trace: bool) -> RunOut {
                 if *pkt != p {
                     out.violate(
                         format!("C01:{}:{ty}:{name}:packet-differs", fam_s(c)),
-                        format!("front-end {name} decoded a different packet\n  sent:    {p:?}\n  decoded: {pkt:?}"),
+                        format!("front-end {name} decoded a different packet\n  sent:    {p:?}\n  decoded: {}", safe_debug(pkt)),
                     );
                 } else if C::to_ast(pkt).canon() != a.canon() {
                     out.violate(
